@@ -31,15 +31,15 @@ MODULES = {
     'C13': ['contracts.c13'],
     'C10': ['contracts.c10'],
     'C11': ['contracts.c11'],
-    'C08': ['contracts.pit_layers'],
-    'C01': ['contracts.pit_layers'],
-    'C04': ['contracts.pit_layers', 'contracts.wrappers', 'contracts.c15'],
+    'C08': ['contracts.pit_layers', 'contracts.pit_graph'],
+    'C01': ['contracts.pit_layers', 'contracts.pit_graph'],
+    'C04': ['contracts.pit_layers', 'contracts.wrappers', 'contracts.c15', 'contracts.pit_graph'],
     'C12': ['contracts.pit_layers', 'contracts.wrappers', 'contracts.c16', 'contracts.c13', 'contracts.c10'],
-    'C05': ['contracts.mps_layers', 'contracts.wrappers'],
+    'C05': ['contracts.mps_layers', 'contracts.wrappers', 'contracts.pit_graph'],
     'C02': ['contracts.mps_layers'],
-    'C06': ['contracts.wrappers'],
+    'C06': ['contracts.wrappers', 'contracts.pit_graph'],
     'C18': ['contracts.wrappers'],
-    'C09': ['contracts.c09', 'contracts.pit_layers'],
+    'C09': ['contracts.c09', 'contracts.pit_layers', 'contracts.pit_graph'],
     'C14': ['contracts.c14'],
     'C20': ['contracts.c20'],
     'C07': ['contracts.c07', 'contracts.wrappers'],
